@@ -80,7 +80,9 @@ def random_config(rng: random.Random, *, rl: bool = False, heavy: bool = True) -
     pool = SAMPLERS if heavy else [s for s in SAMPLERS if s not in ("CORSSampler", "GaussianProcessSampler")]
     for _ in range(n_s - 1):
         names.append(rng.choice(pool))
-    if rl and "HaltonSampler" not in names and rng.random() < 0.5:
+    if rl and "HaltonSampler" not in names and (rng.random() < 0.5 or "BestBatchSampler" in names):
+        # (with the RL scheduler the first batch comes from the Halton sampler - of batch size 1 when the scheduler has to add it:
+        #  best-batch needs at least its batch size of existing points, so the line-up brings its own, large enough Halton sampler)
         names[0] = "HaltonSampler"
     lineup = [[n, rng.randint(1, 4)] for n in names]
     # best-batch needs at least its batch size of existing points: make the first sampler's batch large enough
